@@ -36,6 +36,7 @@ def coq_str(s):
 
 errors = []          # fatal: no fallback
 failed = {}          # coq_name -> reason (fallback used)
+inconclusive = {}    # coq_name -> reason (documented value used; the correspondence run decides)
 defs = []
 _FB = os.path.join(os.path.dirname(os.path.abspath(__file__)), "constants_fallback.json")
 try:
@@ -65,12 +66,18 @@ def nat_const(coq_name, rel, pattern, doc):
         broken(coq_name, f"pattern {pattern!r} not found in {rel}"); return
     emit(coq_name, f"(* {rel}: {doc} *)\nDefinition {coq_name} : nat := {int(m.group(1))}.")
 
-def str_const(coq_name, rel, pattern, doc):
+def str_const(coq_name, rel, pattern, doc, absent_is_inconclusive=False):
+    """absent_is_inconclusive: the constant is a piece of program text (a regular expression); when the source no
+    longer holds one at all (the matching was re-implemented by hand) the documented text stays in the model and
+    the correspondence run decides; a DIFFERENT text is extracted as it is (and breaks the theorem that names it)"""
     try:
         src = read(rel)
     except OSError as e:
         broken(coq_name, f"cannot read {rel}: {e}"); return
     m = re.search(pattern, src, re.M | re.S)
+    if not m and absent_is_inconclusive and coq_name in fallback:
+        inconclusive[coq_name] = f"{rel}: no such expression in the text any more; documented expression used"
+        defs.append("(* documented expression; the source holds none *)\n" + fallback[coq_name]); return
     if not m:
         broken(coq_name, f"pattern {pattern!r} not found in {rel}"); return
     emit(coq_name, f"(* {rel}: {doc} *)\nDefinition {coq_name} : string := {coq_str(m.group(1))}.")
@@ -88,18 +95,54 @@ def strlist_const(coq_name, rel, pattern, doc):
                 "; ".join(coq_str(x) for x in items) + "].")
 
 def cmp_const(coq_name, rel, pattern, doc):
-    """comparison operator used at a threshold: emitted as a string constant"""
-    str_const(coq_name, rel, pattern, doc)
+    """comparison operator used at a threshold: the operator written immediately before the threshold's name.
+    Reading an operator off the text is only a hint -- `if n <= LIMIT { return }` and `if n > LIMIT { report }` are
+    the same behaviour -- so the documented operator (tools/constants_fallback.json) is what the model uses; when
+    the text shows exactly one comparison and it is the documented one the constant counts as extracted, otherwise
+    the disagreement is recorded as inconclusive and the boundary cases of the correspondence run (every generator
+    produces values at and next to each threshold) decide what the code does at the threshold."""
+    try:
+        src = re.sub(r"//[^\n]*", "", read(rel))
+    except OSError as e:
+        broken(coq_name, f"cannot read {rel}: {e}"); return
+    ms = re.findall(pattern, src)
+    if coq_name not in fallback:
+        if len(ms) != 1:
+            errors.append(f"{coq_name}: pattern {pattern!r} found {len(ms)} times in {rel} and no documented value"); return
+        emit(coq_name, f"(* {rel}: {doc} *)\nDefinition {coq_name} : string := {coq_str(ms[0])}."); return
+    text = f"(* {rel}: {doc} *)\nDefinition {coq_name} : string := {coq_str(ms[0])}." if len(ms) == 1 else None
+    if text is not None and text == fallback[coq_name]:
+        emit(coq_name, text)
+    else:
+        inconclusive[coq_name] = (f"{rel}: {len(ms)} comparison(s) with the threshold in the text" +
+                                  (f", written {ms[0]!r}" if len(ms) == 1 else "") + "; documented operator used")
+        defs.append("(* documented operator; the source text is inconclusive *)\n" + fallback[coq_name])
+
+def func_strlist_const(coq_name, rel, func, doc):
+    """the string literals inside the body of a function, in order (a slice literal scanned by a loop, or the
+    labels of a switch: both say the same)"""
+    try:
+        src = read(rel)
+    except OSError as e:
+        broken(coq_name, f"cannot read {rel}: {e}"); return
+    m = re.search(r"^func %s\(.*?\n\}\n" % re.escape(func), src, re.M | re.S)
+    if not m:
+        broken(coq_name, f"function {func} not found in {rel}"); return
+    items = go_string_list(re.sub(r"//[^\n]*", "", m.group(0)))
+    if not items:
+        broken(coq_name, f"no string literal in function {func} of {rel}"); return
+    emit(coq_name, f"(* {rel}: {doc} *)\nDefinition {coq_name} : list string := [" +
+         "; ".join(coq_str(x) for x in items) + "].")
 
 # ---- call graph / reverse call graph budgets (C03, C04, C07)
 nat_const("maxLoopCount", "pkg/application/call/call_graph.go",
           r"^(?:var|const)\s+maxLoopCount\s*(?:int\s*)?=\s*(\d+)\s*$", "expansion budget of BuildCallChain")
 cmp_const("maxLoopCount_cmp", "pkg/application/call/call_graph.go",
-          r"if\s+\w+\s*([<>]=?|[!=]=)\s*maxLoopCount\s*\{", "budget test of BuildCallChain")
+          r"([<>]=?|[!=]=)\s*maxLoopCount\b", "budget test of BuildCallChain")
 nat_const("loopDepth", "pkg/application/rcall/rcall_graph.go",
           r"^(?:var|const)\s+loopDepth\s*(?:int\s*)?=\s*(\d+)\s*$", "depth budget of BuildRCallChain")
 cmp_const("loopDepth_cmp", "pkg/application/rcall/rcall_graph.go",
-          r"if\s+\w+\s*([<>]=?|[!=]=)\s*loopDepth\s*\{", "budget test of BuildRCallChain")
+          r"([<>]=?|[!=]=)\s*loopDepth\b", "budget test of BuildRCallChain")
 
 # ---- bad smell thresholds (C10)
 for name in ["BS_LONG_PARAS_LENGTH", "BS_IF_SWITCH_LENGTH", "BS_LARGE_LENGTH",
@@ -107,17 +150,17 @@ for name in ["BS_LONG_PARAS_LENGTH", "BS_IF_SWITCH_LENGTH", "BS_LARGE_LENGTH",
     nat_const(name, "pkg/application/bs/bs_app.go",
               r"^\s*%s\s*=\s*(\d+)\s*$" % name, "bad smell threshold")
 cmp_const("bs_long_method_cmp", "pkg/application/bs/bs_app.go",
-          r"\w\s*([<>]=?|[!=]=)\s*BS_METHOD_LENGTH\b", "longMethod comparison")
+          r"([<>]=?|[!=]=)\s*BS_METHOD_LENGTH\b", "longMethod comparison")
 cmp_const("bs_long_params_cmp", "pkg/application/bs/bs_app.go",
-          r"Parameters\)\s*([<>]=?|[!=]=)\s*BS_LONG_PARAS_LENGTH\b", "longParameterList comparison")
+          r"([<>]=?|[!=]=)\s*BS_LONG_PARAS_LENGTH\b", "longParameterList comparison")
 cmp_const("bs_large_class_cmp", "pkg/application/bs/bs_app.go",
-          r"\w\s*([<>]=?|[!=]=)\s*BS_LARGE_LENGTH\b", "largeClass comparison")
+          r"([<>]=?|[!=]=)\s*BS_LARGE_LENGTH\b", "largeClass comparison")
 cmp_const("bs_if_size_cmp", "pkg/application/bs/bs_app.go",
           r"\.IfSize\s*([<>]=?|[!=]=)\s*BS_IF_SWITCH_LENGTH\b", "repeatedSwitches (if) comparison")
 cmp_const("bs_switch_size_cmp", "pkg/application/bs/bs_app.go",
           r"\.SwitchSize\s*([<>]=?|[!=]=)\s*BS_IF_SWITCH_LENGTH\b", "repeatedSwitches (switch) comparison")
 cmp_const("bs_if_lines_cmp", "pkg/application/bs/bs_app.go",
-          r"\.EndLine\s*-\s*\w+\.StartLine\s*([<>]=?|[!=]=)\s*BS_IF_LINES_LENGTH\b", "complexCondition comparison")
+          r"([<>]=?|[!=]=)\s*BS_IF_LINES_LENGTH\b", "complexCondition comparison")
 
 # ---- test bad smell (C11)
 nat_const("DuplicatedAssertionLimitLength", "pkg/infrastructure/constants/java_target_config.go",
@@ -136,15 +179,15 @@ strlist_const("ENGLISH_STOP_WORDS", "pkg/application/call/stop_words/languages/e
               r"ENGLISH_STOP_WORDS\s*=\s*\[\]string\{(.*?)\n\}", "English stop words")
 
 # ---- cloc (C16)
-strlist_const("cloc_ignore_dirs", "pkg/application/cloc/cloc_app.go",
-              r"func IsIgnoreDir.*?\[\]string\{(.*?)\}", "directories skipped by the by-directory report")
+func_strlist_const("cloc_ignore_dirs", "pkg/application/cloc/cloc_app.go", "IsIgnoreDir",
+                   "directories skipped by the by-directory report")
 
 strlist_const("cloc_exclude_dirs", "cmd/cloc.go",
               r"&processor\.PathDenyList, \"exclude-dir\", \[\]string\{(.*?)\}", "default of --exclude-dir (scc path deny list)")
 nat_const("cloc_top_lang_limit", "cmd/cloc.go",
           r"if\s+len\(\w+\)\s*<=\s*(\d+)\s*\{", "top-file tables are printed for at most this many languages")
 cmp_const("cloc_top_size_cmp", "cmd/cloc.go",
-          r"if\s+\w+\s*([<>]=?|[!=]=)\s*clocConfig\.TopSizes\s*\{", "top-file truncation test")
+          r"([<>]=?|[!=]=)\s*clocConfig\.TopSizes\b", "top-file truncation test")
 
 # ---- git log arguments (C14)
 strlist_const("git_log_args", "cmd/git.go",
@@ -156,18 +199,22 @@ str_const("deps_pom_block", "pkg/application/deps/maven_analysis.go",
 str_const("deps_gradle_block", "pkg/infrastructure/ast/ast_groovy/groovy_identifier_listener.go",
           r'GetText\(\) != "([^"]+)"', "name of the build.gradle closure whose statements are the declared dependencies")
 str_const("deps_coord_sep", "pkg/infrastructure/ast/ast_groovy/groovy_identifier_listener.go",
-          r'strings\.Split\(\w+, "([^"]+)"\)', "separator of group:artifact:version in ConvertToJDep")
+          r'strings\.Split\([^,()]+, "([^"]+)"\)', "separator of group:artifact:version in ConvertToJDep")
 
 # ---- todo scanner (C17)
 strlist_const("todo_identifiers", "pkg/application/todo/astitodo/astitodo.go",
               r"todoIdentifiers\s*=\s*\[\]string\{(.*?)\}", "comment keywords of IsTodoIdentifier, in test order")
 str_const("todo_assign_regexp", "pkg/application/todo/astitodo/astitodo.go",
-          r'assignRegStr\s*=\s*"((?:[^"\\\n]|\\.)*)"', "assignee expression, as written in the Go source (escapes not decoded)")
+          r'assignRegStr\s*=\s*"((?:[^"\\\n]|\\.)*)"', "assignee expression, as written in the Go source (escapes not decoded)",
+          absent_is_inconclusive=True)
 
 # ---- unused-import removal (C06): which repairs of fixes/unused-*.diff the sources carry.
-# Each switch is decided by two patterns of which exactly one must be present (fails closed).
+# Each switch recognises the defective text only (see bool_switch).
 def bool_switch(coq_name, checks, doc):
-    """checks: [(rel, pattern_when_false, pattern_when_true)]; all must agree"""
+    """checks: [(rel, pattern_of_the_defective_text, pattern_of_the_repaired_text)].  A file votes `false` (defective
+    variant of the model) exactly when the DEFECTIVE text is present and the repaired one is not; any other text
+    -- the repaired one, or a rewrite this script does not recognise -- selects the repaired variant, and it is
+    the correspondence check of C06 that decides whether that variant describes the code.  All files must agree."""
     votes = []
     for rel, pf, pt in checks:
         try:
@@ -176,9 +223,7 @@ def bool_switch(coq_name, checks, doc):
             broken(coq_name, f"cannot read {rel}: {e}"); return
         a = re.search(pf, src, re.M) is not None
         b = re.search(pt, src, re.M) is not None
-        if a == b:
-            broken(coq_name, f"{rel}: expected exactly one of {pf!r} / {pt!r} (found {'both' if a else 'neither'})"); return
-        votes.append(b)
+        votes.append(not (a and not b))
     if len(set(votes)) != 1:
         broken(coq_name, f"the sources disagree ({votes}) -- the repair is only half applied"); return
     emit(coq_name, f"(* {', '.join(c[0] for c in checks)}: {doc} *)\nDefinition {coq_name} : bool := {'true' if votes[0] else 'false'}.")
@@ -209,7 +254,7 @@ bool_switch("unused_fix_primary",
 str_const("rename_conf_sep", "pkg/application/refactor/rename/support/related_parser.go",
           r'strings\.Split\(str, "([^"]+)"\)', "separator between the old and the new qualified name on a line of the rename file")
 str_const("rename_line_sep", "pkg/application/refactor/rename/rename_method.go",
-          r'strings\.Split\(string\(input\), "((?:[^"\\]|\\.)+)"\)', "line separator of updateSelfRefs, as written in the Go source (escape not decoded)")
+          r'strings\.Split\((?:string\()?\w+\)?, "((?:[^"\\]|\\.)+)"\)', "line separator of updateSelfRefs, as written in the Go source (escape not decoded)")
 str_const("rename_name_sep", "pkg/application/refactor/rename/support/package_info_helper.go",
           r'strings\.Split\(name, "([^"]+)"\)', "separator of package, class and method in a qualified method name")
 
@@ -229,14 +274,17 @@ for k, v in failed.items():
     sys.stderr.write("gen_constants: BROKEN TIE for %s: %s (last extracted value used)\n" % (k, v))
 
 _st = os.path.join(os.path.dirname(OUT), "constants_status.json")
-_sj = json.dumps({"failed": failed, "constants": sorted(list(current) + list(failed))}, indent=1, sort_keys=True)
+_sj = json.dumps({"failed": failed, "inconclusive": inconclusive,
+                  "constants": sorted(list(current) + list(failed) + list(inconclusive))}, indent=1, sort_keys=True)
 if not os.path.exists(_st) or open(_st).read() != _sj:
     open(_st, "w").write(_sj)
-# remember what was extracted (committed file; changes only when the Go constants change)
-_nf = dict(fallback); _nf.update(current)
-_nj = json.dumps(_nf, indent=1, sort_keys=True, ensure_ascii=True)
-if not os.path.exists(_FB) or open(_FB).read() != _nj:
-    open(_FB, "w").write(_nj)
+# the committed file of last extracted / documented values is rewritten only on request (after a repair of /repo
+# changed a constant): a check run against a modified tree must never move it
+if "--update-fallback" in sys.argv:
+    _nf = dict(fallback); _nf.update(current)
+    _nj = json.dumps(_nf, indent=1, sort_keys=True, ensure_ascii=True)
+    if not os.path.exists(_FB) or open(_FB).read() != _nj:
+        open(_FB, "w").write(_nj)
 
 text = """(* GENERATED by tools/gen_constants.py from the Go sources under /repo -- do not edit. *)
 From Coq Require Import String List.
